@@ -23,6 +23,8 @@ pub fn prepare(f: &mut SynthFont, g: &mut Gen) -> Option<(usize, usize)> {
         for s in gl.sources.values_mut() { s.height = None; for c in s.comps.iter_mut() { if c.xf[1] != 0.0 || c.xf[2] != 0.0 { c.xf[0] = 1.0; c.xf[1] = 0.0; c.xf[2] = 0.0; c.xf[3] = 1.0; } } }
     }
     for s in f.sources.iter_mut() { s.info.metrics.retain(|k, _| !k.starts_with("openTypeVhea")); }
+    // a master repeating another one's file keeps its own name: the front end picks the default master by name when no origin is declared
+    for s in f.sources.iter_mut() { if s.name.starts_with("plateau_") { s.info.style = Some("Plateau".into()); } }
     // partial-coordinate layer: location = (v on axis 0, the attached master's coordinates elsewhere)
     let mut special = None;
     if f.axes.len() >= 2 && g.chance(2, 3) {
